@@ -35,6 +35,8 @@ def run_impl(xs, start, stop, step, err=False, via="getitem"):
     try:
         if via == "getitem":
             o = src[start:stop:step]
+        elif via == "index":          # the integer-index form source[i] (stop / step unused)
+            o = src[start]
         else:
             o = src.pipe(ops.slice(start, stop, step))
     except Exception as e:
@@ -44,11 +46,33 @@ def run_impl(xs, start, stop, step, err=False, via="getitem"):
     return (out, "".join(term))
 
 
+def index_readings_agree(n, i):
+    """list[i] and list[i:i+1] denote the same single element"""
+    return -n <= i < n and i != -1
+
+
+def index_accepted(xs, i):
+    n = len(xs)
+    if index_readings_agree(n, i):
+        return [([xs[i]], "C")]
+    if i == -1 and n > 0:
+        return [([], "C"), ([xs[-1]], "C")]
+    return [([], "C"), ([], "E")]
+
+
+def index_ok(xs, i, r, err):
+    """r = run_impl(..., via='index'); err: the source fails after xs (only judged where the readings agree)"""
+    if not err:
+        return any(r == a for a in index_accepted(xs, i))
+    exp = [xs[i]]
+    return r[0] != "raise" and r[1] in ("E", "C") and r[0] == exp[:len(r[0])] and (r[1] == "E" or r[0] == exp)
+
+
 def cases_for(tier, rng):
     L = 5 if tier == "quick" else 8
     rngv = list(range(-(L + 2), L + 3))
     starts = [None] + rngv
-    steps = [None, 1, 2, 3, L + 1]
+    steps = [None] + list(range(1, L + 2))       # the statement: all steps 1..N+1
     cs = []
     for n in range(L + 1):
         for s in starts:
@@ -133,6 +157,44 @@ def run(chk):
             # negative step: only the raise/plan part is compared (py_slice_idx is unspecified there)
             gal.append((f"({glist(xs)}, ({gopt(s)}, {gopt(e)}, {gopt(k)}))",
                         f"({impl_out}, py_slice_idx {glist(xs)} {gopt(s)} {gopt(e)} {gopt(k)})"))
+    # ---- the integer-index form source[i].  Observable.__getitem__ maps i to slice_(i, i + 1, 1), i.e. the code's
+    # reading is list(source)[i:i+1]; the other natural reading is the element list(source)[i].  The statement does
+    # not choose, so the oracle demands only what both readings give and accepts either where they differ
+    # (i = -1: [] or the last element; i outside the source: nothing, then completion or an error)
+    Lq = 5 if tier == "quick" else 8
+    idx_cases = [(n, i) for n in range(Lq + 1) for i in range(-(Lq + 2), Lq + 3)]
+    idx_cases += [(chk.rng.randrange(0, Lq + 4), chk.rng.choice(BIG)) for _ in range(20 if tier == "quick" else 200)]
+    hist["index_form"] = 0
+    hist["index_form_both_readings_agree"] = 0
+    for (n, i) in idx_cases:
+        xs = list(range(100, 100 + n))
+        r = run_impl(xs, i, None, None, via="index")
+        chk.cov["evaluations"] += 1
+        hist["index_form"] += 1
+        agree = index_readings_agree(n, i)
+        hist["index_form_both_readings_agree"] += agree
+        if not index_ok(xs, i, r, False):
+            chk.violation(f"index|len={n} i={i}",
+                          {"input": {"source": xs, "index": i}, "implementation": r,
+                           "accepted": [list(a) for a in index_accepted(xs, i)],
+                           "oracle": "source[i] emits the i-th element (list[i] and list[i:i+1] agree) and completes"},
+                          size=n * 100 + abs(i))
+        if agree:
+            seen_nontrivial.add((n, i, "index"))
+        if n <= 3 and agree:
+            r3 = run_impl(xs, i, None, None, err=True, via="index")
+            chk.cov["evaluations"] += 1
+            if not index_ok(xs, i, r3, True):
+                chk.violation(f"index-error|len={n} i={i}",
+                              {"input": {"source": xs + ["<error>"], "index": i}, "implementation": r3,
+                               "expected": "a prefix of [list(source)[i]] followed by the error, or that element "
+                                           "followed by completion"}, size=10**6 + n)
+        if agree or r == (xs[i:i + 1], "C"):
+            # model side (the code's own mapping i -> (i, i+1, 1)); where the readings differ the case is compared
+            # only as long as the implementation follows the slice reading
+            impl_out = "None" if r[0] == "raise" else f"(Some {glist(r[0])})"
+            gal.append((f"({glist(xs)}, ({gopt(i)}, {gopt(i + 1)}, {gopt(1)}))",
+                        f"({impl_out}, {glist(xs[i:i + 1])})"))
     bad, logs = lib.correspondence("C07", "corr", IMPORTS,
                                    "(list Z * (option Z * option Z * option Z)) * (option (list Z) * list Z)",
                                    "model", "out_eqb", gal, prelude=PRELUDE)
@@ -149,7 +211,10 @@ def run(chk):
     chk.cov["distinct_nontrivial"] = len(seen_nontrivial)
     chk.cov["exhaustive"] = True
     chk.cov["rule"] = (f"exhaustive: source lengths 0..{5 if tier == 'quick' else 8}, start/stop in None or "
-                       "[-(L+2), L+2], step in None,1,2,3,L+1, through both source[a:b:c] and ops.slice; plus "
+                       "[-(L+2), L+2], step in None,1..L+1, through both source[a:b:c] and ops.slice; the "
+                       "integer-index form source[i] for every i in [-(L+2), L+2] and 64-bit-boundary values "
+                       "(the i-th element where list[i] and list[i:i+1] agree, either reading where they differ: "
+                       "i = -1 and i outside the source; also with a failing source); plus "
                        "seeded random cases with 64-bit-boundary and 10**20 values and steps 0/-1/-3 (raise "
                        "path).  non-trivial = distinct (len,start,stop,step) whose expected slice is non-empty "
                        "and differs from the whole list")
@@ -167,12 +232,26 @@ def run(chk):
 def replay(chk, path):
     d = json.load(open(path))
     inp = d.get("input")
+    if isinstance(inp, dict) and "index" in inp:
+        xs = [x for x in inp["source"] if x != "<error>"]
+        err = "<error>" in inp["source"]
+        i = inp["index"]
+        r = run_impl(xs, i, None, None, err=err, via="index")
+        print("input", inp, "implementation", r, "accepted", index_accepted(xs, i))
+        ok = index_ok(xs, i, r, err)
+        if not ok:
+            print(f"VIOLATION property=C07 replay={path}")
+        return 0 if ok else 1
     if isinstance(inp, dict):
         xs = [x for x in inp["source"] if x != "<error>"]
         err = "<error>" in inp["source"]
         r = run_impl(xs, inp["start"], inp["stop"], inp["step"], err=err)
         exp = xs[inp["start"]:inp["stop"]:inp["step"]]
         print("input", inp, "implementation", r, "list slice", exp)
-        return 0 if (not err and r == (exp, "C")) else 1
+        ok = (r == (exp, "C")) if not err else (r[0] != "raise" and r[1] in ("E", "C") and r[0] == exp[:len(r[0])]
+                                                and (r[1] == "E" or r[0] == exp))
+        if not ok:
+            print(f"VIOLATION property=C07 replay={path}")
+        return 0 if ok else 1
     print(json.dumps(d, indent=1))
     return 1
